@@ -781,11 +781,19 @@ func PathElems(s *Seg, v ssa.Value, d int) ([]ssa.Value, bool) {
 		return nil, true
 	}
 	switch t := v.(type) {
+	case *ssa.MakeSlice:
+		if k, ok := constInt(t.Len); ok && k == 0 {
+			return nil, true
+		}
 	case *ssa.Slice:
 		if _, ok := t.X.(*ssa.Alloc); ok && t.Low == nil && t.High == nil {
 			return VariadicElems(t)
 		}
-		_ = t
+		if t.High != nil {
+			if k, ok := constInt(t.High); ok && k == 0 {
+				return nil, true // make([]T, 0, n) with a constant capacity: an empty slice over a fresh array
+			}
+		}
 	case *ssa.Call:
 		if bi, ok := t.Call.Value.(*ssa.Builtin); ok && bi.Name() == "append" && len(t.Call.Args) == 2 {
 			a, okA := PathElems(s, t.Call.Args[0], d+1)
@@ -794,6 +802,9 @@ func PathElems(s *Seg, v ssa.Value, d int) ([]ssa.Value, bool) {
 				return append(append([]ssa.Value{}, a...), b...), true
 			}
 		}
+	}
+	if os.Getenv("SXDBG") != "" {
+		fmt.Fprintf(os.Stderr, "PathElems fails at %T %s\n", v, v.String())
 	}
 	return nil, false
 }
